@@ -106,6 +106,17 @@ def main(tier):
                     a = Array(cat, cont, u)
                     ev("Array[%s].GetValues(v)" % kind, lambda: a.GetValues(v), obj=False, src_kind=kind)
                     ev("Array[%s].CreateCopy(unit=v)" % kind, lambda: a.CreateCopy(unit=v), src_kind=kind)
+                # a history: the container a conversion returned is changed by the caller, the same conversion is asked again
+                for kind in ("list", "ndarray"):
+                    a2 = Array(cat, {"list": list(VALS), "ndarray": numpy.array(VALS)}[kind], u)
+                    r1 = a2.GetValues(v)
+                    if kind == "list":
+                        r1[0] = r1[0] + 12345.0
+                        r1.reverse()
+                    else:
+                        r1 *= 3.0
+                    ev("Array[%s].GetValues(v) again after the caller changed the first result" % kind, lambda: a2.GetValues(v), obj=False, src_kind=kind)
+                    ev("Array[%s].CreateCopy(unit=v) after the caller changed an earlier result" % kind, lambda: a2.CreateCopy(unit=v), src_kind=kind)
                 tt = [tuple(VALS[:2]), tuple(VALS[2:])]
                 ev("Array[list of tuples].GetValues(v)", lambda: Array(cat, tt, u).GetValues(v), obj=False)
                 ragged = [(VALS[0],), tuple(VALS[1:3]), (VALS[3], VALS[0], VALS[1])]
@@ -136,7 +147,10 @@ def main(tier):
                     slope = ref[1]
                     rcp = 1.0 / Scalar(cat, 2.0, u)
                     sq = Scalar(cat, 3.0, u) * Scalar(cat, 3.0, u)
-                    for name, fn, want in (("(1/Scalar).GetValue([(v,-1)])", lambda: rcp.GetValue([(v, -1)]), 0.5 / slope),
+                    sqn = Scalar(cat, -3.0, u) * Scalar(cat, 3.0, u)
+                    for name, fn, want in (("(-Scalar*Scalar).GetValue([(v,2)]) negative amount", lambda: sqn.GetValue([(v, 2)]), -9.0 * slope * slope),
+                                           ("db.Convert(qt,[(u,-2)],[(v,-2)],negative x)", lambda: db.Convert(qt, [(u, -2)], [(v, -2)], -5.0), -5.0 / (slope * slope)),
+                                           ("(1/Scalar).GetValue([(v,-1)])", lambda: rcp.GetValue([(v, -1)]), 0.5 / slope),
                                            ("(Scalar*Scalar).GetValue([(v,2)])", lambda: sq.GetValue([(v, 2)]), 9.0 * slope * slope),
                                            ("db.Convert(qt,[(u,-2)],[(v,-2)],x)", lambda: db.Convert(qt, [(u, -2)], [(v, -2)], 5.0), 5.0 / (slope * slope))):
                         o = P.outcome(fn)
